@@ -6,4 +6,6 @@ GridsDense  == <<"G", "G2", "Gac", "Gother">>
 GridsDenseQ == <<"G", "G2", "Gac">>
 \* spline models: the control grid can be refined by moving to the 2n-1 grid of the same domain
 GridsSpline == <<"G", "Gfine">>
+\* composites (Kind = "SEQ": a sequential composite of two predicted displacement fields) stay on their grid
+GridsOne == <<"G">>
 =============================================================================
